@@ -4,10 +4,17 @@
 // Add / Remove / block-applied / block-reverted / promotion passes (optionally with an operation interleaved into the pass) /
 // verifier answer changes, and evaluates invariants I1–I5 (DESIGN §4 C14) after every single pool call; every call runs under a
 // watchdog that reports a deadlock only on positive evidence from a goroutine dump.
+//
+// Extension "collaborator faults and event subscribers" (faults_test.go, subs_test.go, mockConn in support_test.go): the connection
+// fails Publish for drawn Adds, the verifier answers slowly or changes its answer between consultations, histories have 0-3
+// subscribers of the pool's events that drain only or call back into the pool (Get / GetAll / GetProcessable / Remove), transactions
+// also arrive through the gossip validator + handler the pool registered (single and several per watched call, malformed payloads),
+// peers send getTransactions requests through the registered RPC handler, and every history ends with End().
 package c14
 
 import (
 	"fmt"
+	"runtime"
 	"sort"
 	"strings"
 	"sync"
@@ -54,24 +61,72 @@ type midOp struct {
 }
 
 type stepCtx struct {
-	kind string // add | remove | reorg | reorgmid | bulk (= full evaluation after a run of light steps, large-scale histories)
+	// add | remove | reorg | reorgmid | bulk (= full evaluation after a run of light steps, large-scale histories)
+	// announce (one gossip announcement through the registered validator + handler) | burst (several announcements in one watched
+	// call) | rpc (getTransactions request through the registered RPC handler)
+	kind string
 	tx   *txRec
 	ret  bool
 	mid  *midOp
+	// collaborator faults: fault = the connection was told to fail the Publish of this call; pubFailed / published = Publish calls
+	// that really happened during the call (an Add rejected earlier never reaches Publish)
+	fault     bool
+	pubFailed int
+	published int
+	// announce / burst / rpc
+	txs       []*txRec
+	faults    []bool
+	malformed string // announce: kind of malformed payload ("" = the encoding of tx)
+	payload   []byte
+	delivered bool // announce: the validator accepted the message, the handler ran
+	rpcDesc   string
+	rpcOut    *rpcWriter
 	// light steps only: Get(id) immediately before / after the call (same watched call)
 	lb, la bool
 	// bulk only: what the light steps since the last full evaluation did
 	bulkAdds, bulkRemoves int
 }
 
+func (c *stepCtx) faultNote() string {
+	switch {
+	case c.fault && c.pubFailed > 0:
+		return " [Publish failed]"
+	case c.fault:
+		return " [Publish armed to fail, not reached]"
+	}
+	return ""
+}
+
 func (c *stepCtx) String() string {
 	switch c.kind {
 	case "add":
-		return fmt.Sprintf("Add(%s)=%v", c.tx.spec, c.ret)
+		return fmt.Sprintf("Add(%s)=%v%s", c.tx.spec, c.ret, c.faultNote())
+	case "announce":
+		if c.malformed != "" {
+			return fmt.Sprintf("Announce(malformed %s, %d bytes) delivered=%v", c.malformed, len(c.payload), c.delivered)
+		}
+		return fmt.Sprintf("Announce(%s)%s", c.tx.spec, c.faultNote())
+	case "burst":
+		var l []string
+		for i, r := range c.txs {
+			f := ""
+			if c.faults[i] {
+				f = "!"
+			}
+			l = append(l, r.spec.String()+f)
+		}
+		return fmt.Sprintf("AnnounceBurst(%s) [! = Publish armed to fail; %d Publish calls failed, %d succeeded]", strings.Join(l, ", "), c.pubFailed, c.published)
+	case "rpc":
+		if c.rpcOut != nil {
+			return fmt.Sprintf("GetTransactionsRPC(%s) -> %d writes, %d bytes", c.rpcDesc, c.rpcOut.writes, len(c.rpcOut.data))
+		}
+		return fmt.Sprintf("GetTransactionsRPC(%s)", c.rpcDesc)
 	case "remove":
 		return fmt.Sprintf("Remove(%s)=%v", c.tx.spec, c.ret)
 	case "bulk":
 		return fmt.Sprintf("state after the last %d Add and %d Remove calls", c.bulkAdds, c.bulkRemoves)
+	case "end":
+		return "End()"
 	case "reorgmid":
 		op := "Remove"
 		if c.mid.add {
@@ -94,12 +149,20 @@ func (c *stepCtx) addInfo() (*txRec, bool, bool) {
 }
 
 type machine struct {
-	t     failer
-	cfg   cfgT
-	nS    int
-	pool  *txpool.TransactionPool
-	ver   *verifier
-	prev  *snap
+	t    failer
+	cfg  cfgT
+	nS   int
+	pool *txpool.TransactionPool
+	conn *mockConn
+	ver  *verifier
+	prev *snap
+	// event subscribers of the current pool (kinds are fixed per history; a fresh pool gets new subscribers of the same kinds)
+	subKinds []subKind
+	subs     *subGroup
+	// unc: IDs a Remove-subscriber has set out to remove since the last full evaluation. Such a transaction may leave the pool at any
+	// moment, independently of the calls of the history: what the recorded state says about it is not relied upon.
+	unc   map[string]bool
+	ended bool
 	recs  map[txSpec]*txRec
 	byID  map[string]*txRec
 	order []*txRec // universe in creation order
@@ -128,10 +191,81 @@ func newMachine(t failer, c cfgT, nS int, avoid map[string]bool) *machine {
 	if m.avoid == nil {
 		m.avoid = map[string]bool{}
 	}
-	m.pool = newPool(c, m.ver)
+	resetSubRegistry()
+	m.pool, m.conn = newPoolConn(c, m.ver)
+	m.subs = &subGroup{}
 	m.prev = emptySnap()
 	m.hist = append(m.hist, c.String())
 	return m
+}
+
+// subscribe gives the pool its event subscribers (call before the first operation).
+func (m *machine) subscribe(kinds []subKind) {
+	m.subKinds = kinds
+	m.subs = &subGroup{}
+	var names []string
+	for _, k := range kinds {
+		m.subs.subs = append(m.subs.subs, startSubscriber(m.pool, k))
+		names = append(names, k.String())
+		m.flags["sub:topic:"+k.Topic] = true
+		m.flags["sub:callback:"+k.CB] = true
+		if k.Delay > 0 {
+			m.flags["sub:with-delay"] = true
+		}
+	}
+	m.flags[fmt.Sprintf("subscribers:%d", len(kinds))] = true
+	if len(kinds) > 0 {
+		m.hist = append(m.hist, "subscribers: "+strings.Join(names, " "))
+	}
+}
+
+// finish ends the history: the subscribers finish what they are doing, End() closes their channels, they leave their loops.
+// All of it under the watchdog (End takes the event emitter's lock, which a blocked publication would hold).
+func (m *machine) finish() {
+	if m.stopped || m.ended {
+		return
+	}
+	m.ended = true
+	m.sync()
+	if m.stopped {
+		return
+	}
+	pool, subs := m.pool, m.subs
+	// The subscribers are only waited for when one of them changes the pool or visibly holds an unfinished message (waiting costs a
+	// scheduling round trip per history, milliseconds on a loaded machine); otherwise they leave on their own once End() has closed
+	// their channels. A subscriber stuck in the pool shows in the calls of the history itself (it holds or awaits the pool's lock).
+	wait := subs.mutating() || subs.busy()
+	st, dump := guard(func() {
+		pool.End()
+		if wait {
+			subs.waitExit()
+		}
+	})
+	ctx := &stepCtx{kind: "end"}
+	m.hist = append(m.hist, ctx.String())
+	var vs []viol
+	switch st {
+	case callDeadlock:
+		vs = append(vs, viol{"live:deadlock", "", "End() / the subscribers never finish; goroutines inside the pool (all parked):\n" + dump})
+	case callPanic:
+		vs = append(vs, viol{"panic", "", dump})
+	case callTimeout:
+		evid.R.Inconclusive("end of history (subscribers idle, End, subscribers gone) did not finish within %s without deadlock evidence", wdLimit)
+	}
+	for _, p := range subs.takePanics() {
+		vs = append(vs, viol{"panic-subscriber", "", p})
+	}
+	unregisterSubs(subs.subs)
+	if n := subs.events(); n > 0 {
+		m.flags["sub:events-delivered"] = true
+		evid.R.Label("events-delivered", int64(n))
+	}
+	if subs.removedOK() > 0 {
+		m.flags["sub:removed-by-subscriber"] = true
+	}
+	if len(vs) > 0 {
+		m.handle(vs, ctx, nil)
+	}
 }
 
 func (m *machine) rec(sp txSpec) *txRec {
@@ -148,7 +282,13 @@ func (m *machine) rec(sp txSpec) *txRec {
 func (m *machine) freshPool(why string) {
 	m.abandoned++
 	m.hist = append(m.hist, "-- pool abandoned ("+why+"), fresh pool --")
-	m.pool = newPool(m.cfg, m.ver)
+	unregisterSubs(m.subs.subs) // leaked with their pool
+	m.unc = nil
+	m.pool, m.conn = newPoolConn(m.cfg, m.ver)
+	m.subs = &subGroup{}
+	for _, k := range m.subKinds {
+		m.subs.subs = append(m.subs.subs, startSubscriber(m.pool, k))
+	}
 	m.prev = emptySnap()
 }
 
@@ -246,7 +386,10 @@ func (m *machine) anyPendingPooled() bool {
 // ---------------------------------------------------------------------------------------------------------------
 // operations (each = one watched pool call followed by the full invariant evaluation)
 
-func (m *machine) doAdd(r *txRec) {
+func (m *machine) doAdd(r *txRec) { m.doAddF(r, false) }
+
+// doAddF: Add; with fault the connection fails the Publish of this call (if the Add gets that far).
+func (m *machine) doAddF(r *txRec, fault bool) {
 	if m.stopped {
 		return
 	}
@@ -255,16 +398,111 @@ func (m *machine) doAdd(r *txRec) {
 		evid.R.Label("avoided:add:"+why, 1)
 		return
 	}
-	ctx := &stepCtx{kind: "add", tx: r}
+	ctx := &stepCtx{kind: "add", tx: r, fault: fault}
+	pool, conn := m.pool, m.conn
+	arm := func() {
+		if fault {
+			conn.armFailures(1)
+		} else {
+			conn.armFailures(0)
+		}
+	}
 	if m.light {
 		m.lightStep(ctx, func() {
-			_, ctx.lb = m.pool.Get(r.tx.ID)
-			ctx.ret = m.pool.Add(r.tx)
-			_, ctx.la = m.pool.Get(r.tx.ID)
+			arm()
+			_, ctx.lb = pool.Get(r.tx.ID)
+			ctx.ret = pool.Add(r.tx)
+			_, ctx.la = pool.Get(r.tx.ID)
 		})
 		return
 	}
-	m.step(ctx, func() { ctx.ret = m.pool.Add(r.tx) })
+	m.step(ctx, func() {
+		arm()
+		ctx.ret = pool.Add(r.tx)
+	})
+}
+
+// doAnnounce: the transaction arrives as a gossip announcement (validator, then onTransactionAnnoucement: verifier, Add, event for
+// the subscribers). malformed != "" sends payload instead of the encoding of r (r may be nil then).
+func (m *machine) doAnnounce(r *txRec, fault bool, malformed string, payload []byte) {
+	if m.stopped {
+		return
+	}
+	if r != nil && malformed == "" {
+		if why := m.avoidAdd(r); why != "" {
+			evid.R.Excluded(1)
+			evid.R.Label("avoided:add:"+why, 1)
+			return
+		}
+		payload = r.tx.Bytes()
+	}
+	ctx := &stepCtx{kind: "announce", tx: r, fault: fault, malformed: malformed, payload: payload}
+	pool, conn := m.pool, m.conn
+	call := func() {
+		if fault {
+			conn.armFailures(1)
+		} else {
+			conn.armFailures(0)
+		}
+		ctx.delivered = conn.announce(payload)
+	}
+	if m.light && r != nil && malformed == "" {
+		m.lightStep(ctx, func() {
+			_, ctx.lb = pool.Get(r.tx.ID)
+			call()
+			_, ctx.la = pool.Get(r.tx.ID)
+		})
+		return
+	}
+	m.step(ctx, call)
+}
+
+// doBurst: several announcements back to back in one watched call (gossip delivers them like that); the subscribers are still busy
+// with the previous event when the next one is published.
+func (m *machine) doBurst(rs []*txRec, faults []bool) {
+	if m.stopped {
+		return
+	}
+	var txs []*txRec
+	var fl []bool
+	for i, r := range rs {
+		if why := m.avoidAdd(r); why != "" || len(m.avoid) > 0 { // (known findings present: the avoidance rules need the state before every call)
+			evid.R.Excluded(1)
+			evid.R.Label("avoided:add:burst", 1)
+			continue
+		}
+		txs = append(txs, r)
+		fl = append(fl, faults[i])
+	}
+	if len(txs) == 0 {
+		return
+	}
+	ctx := &stepCtx{kind: "burst", txs: txs, faults: fl}
+	conn := m.conn
+	payloads := make([][]byte, len(txs))
+	for i, r := range txs {
+		payloads[i] = r.tx.Bytes()
+	}
+	m.step(ctx, func() {
+		for i := range txs {
+			if fl[i] {
+				conn.armFailures(1)
+			} else {
+				conn.armFailures(0)
+			}
+			conn.announce(payloads[i])
+		}
+	})
+}
+
+// doRPC: a peer's getTransactions request through the handler the pool registered.
+func (m *machine) doRPC(desc string, data []byte) {
+	if m.stopped {
+		return
+	}
+	ctx := &stepCtx{kind: "rpc", rpcDesc: desc}
+	conn := m.conn
+	m.step(ctx, func() { ctx.rpcOut = conn.getTransactions(data) })
 }
 
 func (m *machine) doRemove(r *txRec) {
@@ -292,11 +530,14 @@ func (m *machine) lightStep(ctx *stepCtx, call func()) {
 		m.ver.resetCalls()
 	}
 	st, dump := guard(call)
+	ctx.published, ctx.pubFailed = m.conn.takeCounts()
+	m.pullIntents()
+	removedBySub := m.unc
 	m.hist = append(m.hist, ctx.String())
 	var vs []viol
 	switch st {
 	case callDeadlock:
-		vs = append(vs, viol{"live:deadlock", "", "the call never returns; goroutines inside the pool (all parked on its locks):\n" + dump})
+		vs = append(vs, viol{"live:deadlock", "", "the call never returns; goroutines inside the pool (all parked: on its locks, or in an event send that no subscriber can take):\n" + dump})
 	case callPanic:
 		vs = append(vs, viol{"panic", "", dump})
 	case callTimeout:
@@ -306,14 +547,21 @@ func (m *machine) lightStep(ctx *stepCtx, call func()) {
 		return
 	default:
 		r := ctx.tx
-		if ctx.kind == "add" {
+		if ctx.kind == "announce" {
 			m.dirty.bulkAdds++
-			if ctx.ret && !ctx.la {
+			m.noteFault(ctx, nil)
+			m.flags["announce:handled"] = true
+		} else if ctx.kind == "add" {
+			m.dirty.bulkAdds++
+			// (a transaction a Remove-subscriber took out again is not expected to be found)
+			if ctx.ret && !ctx.la && !removedBySub[r.id] {
 				vs = append(vs, viol{"I5:add-true-absent", r.id, fmt.Sprintf("Add returned true but Get does not find %s", r.spec)})
 			}
-			if !ctx.ret && !ctx.lb && ctx.la {
+			// (after a failed Publish the statement does not fix the return value: pooled with "false" is the unchanged tree's answer)
+			if !ctx.ret && !ctx.lb && ctx.la && ctx.pubFailed == 0 {
 				vs = append(vs, viol{"I5:add-false-present", r.id, fmt.Sprintf("Add returned false but %s is pooled now", r.spec)})
 			}
+			m.noteFault(ctx, nil)
 			if ctx.ret {
 				m.flags["add:accepted"] = true
 			} else {
@@ -324,7 +572,7 @@ func (m *machine) lightStep(ctx *stepCtx, call func()) {
 			if ctx.la {
 				vs = append(vs, viol{"op:remove-still-pooled", r.id, fmt.Sprintf("%s is still pooled after Remove (returned %v)", r.spec, ctx.ret)})
 			}
-			if ctx.ret != ctx.lb {
+			if ctx.ret != ctx.lb && !removedBySub[r.id] { // (a Remove-subscriber may have been faster)
 				vs = append(vs, viol{"op:remove-result", r.id, fmt.Sprintf("Remove(%s) returned %v, pooled before: %v", r.spec, ctx.ret, ctx.lb)})
 			}
 			if ctx.ret {
@@ -425,8 +673,62 @@ func (m *machine) step(ctx *stepCtx, call func()) {
 	if ctx.mid != nil && ctx.mid.h != nil && st == callOK {
 		st, dump = ctx.mid.h.wait()
 	}
+	ctx.published, ctx.pubFailed = m.conn.takeCounts()
 	m.hist = append(m.hist, ctx.String())
 	m.evaluate(ctx, st, dump)
+}
+
+// pullIntents merges what the Remove-subscribers have set out to remove into m.unc.
+func (m *machine) pullIntents() {
+	for id := range m.subs.takeIntents() {
+		if m.unc == nil {
+			m.unc = map[string]bool{}
+		}
+		m.unc[id] = true
+	}
+}
+
+// noteFault classifies a failed Publish by the situation of the Add it hit (labels; judged on the last evaluated state).
+func (m *machine) noteFault(ctx *stepCtx, s *snap) {
+	if !ctx.fault {
+		return
+	}
+	if ctx.pubFailed == 0 {
+		m.flags["fault:publish:armed-not-reached"] = true
+		return
+	}
+	m.flags["fault:publish:failed"] = true
+	if ctx.kind == "announce" || ctx.kind == "burst" {
+		m.flags["fault:publish:via-announcement"] = true
+	}
+	p := m.prev
+	for i, r := range append([]*txRec{ctx.tx}, ctx.txs...) {
+		if r == nil || (i > 0 && !ctx.faults[i-1]) {
+			continue
+		}
+		l := p.listOf[r.addr]
+		x, occupied := p.slot[slotKey{r.addr, r.tx.Nonce}]
+		switch {
+		case l == nil:
+			m.flags["fault:publish:first-tx-of-sender"] = true
+		case occupied && x != r.id:
+			m.flags["fault:publish:replacement"] = true
+		case !occupied && len(l.Transactions) >= m.cfg.PerAcc:
+			m.flags["fault:publish:sender-list-full"] = true
+		default:
+			m.flags["fault:publish:fresh-slot"] = true
+		}
+		if len(p.raw.All) >= m.cfg.Max {
+			m.flags["fault:publish:into-full-pool"] = true
+		}
+		if s != nil {
+			if _, in := s.raw.All[r.id]; in {
+				m.flags["fault:publish:pooled-afterwards"] = true
+			} else {
+				m.flags["fault:publish:not-pooled-afterwards"] = true
+			}
+		}
+	}
 }
 
 // evaluate: the full invariant evaluation after a call that ended with watchdog status st.
@@ -434,7 +736,7 @@ func (m *machine) evaluate(ctx *stepCtx, st int, dump string) {
 	var vs []viol
 	switch st {
 	case callDeadlock:
-		vs = append(vs, viol{"live:deadlock", "", "the call never returns; goroutines inside the pool (all parked on its locks):\n" + dump})
+		vs = append(vs, viol{"live:deadlock", "", "the call never returns; goroutines inside the pool (all parked: on its locks, or in an event send that no subscriber can take):\n" + dump})
 	case callPanic:
 		vs = append(vs, viol{"panic", "", dump})
 	case callTimeout:
@@ -442,9 +744,44 @@ func (m *machine) evaluate(ctx *stepCtx, st int, dump string) {
 		m.freshPool("timeout without evidence")
 		return
 	}
+	for _, p := range m.subs.takePanics() {
+		vs = append(vs, viol{"panic-subscriber", "", p})
+	}
 	var s *snap
 	if st == callOK {
-		o, st2, dump2 := observe(m.pool, m.probeIDs())
+		// With Remove-subscribers the observation (snapshot + getters, several pool calls) is only used if no such Remove was under
+		// way while it was taken; otherwise it is taken again. (Subscribers that only read are never waited for.)
+		var o *observation
+		var st2 int
+		var dump2 string
+		probe := m.probeIDs()
+		forced := false
+		for t0 := time.Now(); ; {
+			i0, d0 := m.subs.removalState()
+			// a subscriber's Remove that does not come back for 200 ms: observe all the same - if the pool is deadlocked the watched
+			// getters hang too and the goroutine dump decides; if they return the Remove is merely slow and the loop goes on
+			force := i0 != d0 && !forced && time.Since(t0) > 200*time.Millisecond
+			if i0 == d0 || force {
+				forced = forced || force
+				o, st2, dump2 = observe(m.pool, probe)
+				i1, _ := m.subs.removalState()
+				if st2 != callOK || (i0 == d0 && i1 == i0) {
+					break
+				}
+				evid.R.Label("observation-repeated:subscriber-remove-under-way", 1)
+			}
+			switch el := time.Since(t0); {
+			case el > wdLimit:
+				evid.R.Inconclusive("no observation without a subscriber's Remove under way within %s after %s", wdLimit, ctx)
+				m.freshPool("no quiet observation")
+				return
+			case el > 2*time.Millisecond:
+				time.Sleep(200 * time.Microsecond)
+			default:
+				runtime.Gosched()
+			}
+		}
+		m.pullIntents()
 		switch st2 {
 		case callDeadlock:
 			vs = append(vs, viol{"live:deadlock-getters", "", "after " + ctx.String() + " the getters never return:\n" + dump2})
@@ -468,6 +805,7 @@ func (m *machine) evaluate(ctx *stepCtx, st int, dump string) {
 	}
 	m.track(ctx, s)
 	m.prev = s
+	m.unc = nil
 }
 
 // contextChecks: the history-dependent parts of I3, I4, I5.
@@ -497,18 +835,27 @@ func (m *machine) contextChecks(ctx *stepCtx, s *snap) []viol {
 		}
 	}
 	switch ctx.kind {
-	case "add":
+	case "add", "announce":
 		r := ctx.tx
+		if r == nil || ctx.malformed != "" {
+			break
+		}
 		_, before := p.raw.All[r.id]
 		_, after := s.raw.All[r.id]
-		if ctx.ret && !after {
-			add("I5:add-true-absent", r.id, "Add returned true but %s is not pooled", r.spec)
-		}
-		if !ctx.ret && !before && after {
-			add("I5:add-false-present", r.id, "Add returned false but %s is pooled now", r.spec)
+		if ctx.kind == "add" {
+			// (a transaction a Remove-subscriber took out again is not expected to be pooled)
+			if ctx.ret && !after && !m.unc[r.id] {
+				add("I5:add-true-absent", r.id, "Add returned true but %s is not pooled", r.spec)
+			}
+			// After a failed Publish the statement does not fix the return value: the unchanged tree keeps the transaction pooled
+			// everywhere and answers false. Pooled everywhere or nowhere - that is what I1 decides on the snapshot.
+			if !ctx.ret && !before && after && ctx.pubFailed == 0 {
+				add("I5:add-false-present", r.id, "Add returned false but %s is pooled now", r.spec)
+			}
 		}
 		// I3: replacement rule. Only judged when the pool was not full before (else the old one may have been evicted for room).
-		if x, ok := p.slot[slotKey{r.addr, r.tx.Nonce}]; ok && x != r.id && after && len(p.raw.All) < m.cfg.Max {
+		// (nor when a Remove-subscriber was after the old one: it may have left before this transaction arrived)
+		if x, ok := p.slot[slotKey{r.addr, r.tx.Nonce}]; ok && x != r.id && after && len(p.raw.All) < m.cfg.Max && !m.unc[x] {
 			if _, still := s.raw.All[x]; !still {
 				old := p.raw.All[x]
 				if r.tx.Fee < old.Fee+m.cfg.Diff {
@@ -523,7 +870,7 @@ func (m *machine) contextChecks(ctx *stepCtx, s *snap) []viol {
 		if after {
 			add("op:remove-still-pooled", r.id, "%s is still pooled after Remove (returned %v)", r.spec, ctx.ret)
 		}
-		if ctx.ret != before {
+		if ctx.ret != before && !m.unc[r.id] { // (a Remove-subscriber may have been faster, or the recorded state is out of date about it)
 			add("op:remove-result", r.id, "Remove(%s) returned %v, pooled before: %v", r.spec, ctx.ret, before)
 		}
 	}
@@ -666,7 +1013,47 @@ func (m *machine) track(ctx *stepCtx, s *snap) {
 			m.flags["add:pending-accepted"] = true
 		}
 	}
+	m.noteFault(ctx, s)
 	switch ctx.kind {
+	case "announce":
+		switch {
+		case ctx.malformed != "" && !ctx.delivered:
+			m.flags["announce:malformed-rejected-by-validator"] = true
+		case ctx.malformed != "":
+			m.flags["announce:malformed-delivered"] = true
+		default:
+			_, before := p.raw.All[ctx.tx.id]
+			_, after := s.raw.All[ctx.tx.id]
+			switch {
+			case before:
+				m.flags["announce:already-pooled"] = true
+			case after:
+				m.flags["announce:pooled"] = true
+			case m.unc[ctx.tx.id]:
+				m.flags["announce:pooled-then-removed-by-subscriber"] = true
+			default:
+				m.flags["announce:not-pooled"] = true
+			}
+			if x, ok := p.slot[slotKey{ctx.tx.addr, ctx.tx.tx.Nonce}]; ok && x != ctx.tx.id && s.slot[slotKey{ctx.tx.addr, ctx.tx.tx.Nonce}] == ctx.tx.id {
+				m.flags["replacement"] = true
+			}
+		}
+	case "burst":
+		m.flags["announce:burst"] = true
+		got := 0
+		for _, r := range ctx.txs {
+			if _, in := s.raw.All[r.id]; in {
+				got++
+			}
+		}
+		if got >= 2 {
+			m.flags["announce:burst:2+pooled"] = true
+		}
+	case "rpc":
+		m.flags["rpc:"+ctx.rpcDesc] = true
+		if ctx.rpcOut != nil && ctx.rpcOut.writes > 0 {
+			m.flags["rpc:answered"] = true
+		}
 	case "remove":
 		if ctx.ret {
 			m.flags["remove:hit"] = true
@@ -701,6 +1088,7 @@ func (m *machine) nontrivial() bool {
 }
 
 func (m *machine) register(kind string) {
+	m.finish()
 	labels := []string{kind}
 	var fl []string
 	for f := range m.flags {
@@ -903,11 +1291,183 @@ func (m *machine) actions() map[string]func(*rapid.T) {
 			if r == nil {
 				r = m.rec(m.drawSpec(t, -1))
 			}
-			a := rapid.SampledFrom([]int{ansOK, ansOK, ansPending, ansPending, ansInvalid, ansInvalid, ansErr}).Draw(t, "answer")
+			a := rapid.SampledFrom([]int{ansOK, ansOK, ansPending, ansPending, ansInvalid, ansInvalid, ansErr, ansOKThenInvalid, ansErrThenOK}).Draw(t, "answer")
+			if m.avoid[sigPending] && a > ansErr {
+				a = ansErr
+			}
 			m.setAnswer(r, a)
+			if a > ansErr {
+				m.flags["verifier:changing-answer"] = true
+			}
+			// slow application: the answer for this transaction takes a moment (the pool waits for it inside Add with the write
+			// lock held, inside a pass without)
+			m.ver.setSlow(r.id, 0)
+			if rapid.IntRange(0, 7).Draw(t, "slowAnswer") == 0 {
+				m.ver.setSlow(r.id, 50*time.Microsecond)
+				m.hist = append(m.hist, fmt.Sprintf("verifier[%s] answers after 50us", r.spec))
+				m.flags["verifier:slow-answer"] = true
+			}
+		},
+		// ---- collaborator faults and the gossip / RPC entry points
+		"addFault": func(t *rapid.T) { // Publish fails for this Add (if it gets that far)
+			m.t = t
+			r := m.rec(m.drawFaultSpec(t))
+			if rapid.IntRange(0, 3).Draw(t, "faultViaAnnouncement") == 0 {
+				m.doAnnounce(r, true, "", nil)
+			} else {
+				m.doAddF(r, true)
+			}
+		},
+		"announce1": func(t *rapid.T) { m.t = t; m.announceOne(t) },
+		"announce2": func(t *rapid.T) { m.t = t; m.announceOne(t) },
+		"announceBurst": func(t *rapid.T) {
+			m.t = t
+			n := rapid.IntRange(2, 4).Draw(t, "burstSize")
+			var rs []*txRec
+			var fl []bool
+			seen := map[string]bool{}
+			for i := 0; i < n; i++ {
+				var r *txRec
+				if len(m.order) > 0 && rapid.IntRange(0, 5).Draw(t, "burstKnown") == 0 {
+					r = m.pick(t, m.order, "burstTx")
+				} else {
+					r = m.rec(m.drawSpec(t, -1))
+				}
+				if seen[r.id] {
+					continue
+				}
+				seen[r.id] = true
+				rs = append(rs, r)
+				fl = append(fl, rapid.IntRange(0, 5).Draw(t, "burstFault") == 0)
+			}
+			m.doBurst(rs, fl)
+		},
+		"rpc": func(t *rapid.T) {
+			m.t = t
+			switch rapid.IntRange(0, 5).Draw(t, "rpcKind") {
+			case 0, 1, 2: // the only request the handler answers: no body = "your processable transactions"
+				m.doRPC("no-body", nil)
+			case 3:
+				var data []byte
+				for _, r := range m.pooled() {
+					data = append(data, r.id...)
+				}
+				if len(data) == 0 {
+					data = []byte(m.rec(m.drawSpec(t, -1)).id)
+				}
+				m.doRPC("known-ids", data)
+			case 4:
+				m.doRPC("unknown-ids", rapid.SliceOfN(rapid.Byte(), 32, 64).Draw(t, "ids"))
+			default:
+				m.doRPC("malformed", rapid.SliceOfN(rapid.Byte(), 1, 40).Draw(t, "garbage"))
+			}
 		},
 	}
 }
+
+func (m *machine) announceOne(t *rapid.T) {
+	mode := rapid.IntRange(0, 9).Draw(t, "announceMode")
+	switch {
+	case mode == 0: // malformed payload: the gossip validator is in front of the handler
+		kind, data := m.drawMalformed(t)
+		m.doAnnounce(nil, false, kind, data)
+	case mode <= 2 && len(m.order) > 0: // something this node has seen before (pooled: duplicate; removed / rejected / evicted)
+		m.doAnnounce(m.pick(t, m.order, "announceKnown"), false, "", nil)
+	default:
+		m.doAnnounce(m.rec(m.drawSpec(t, -1)), false, "", nil)
+	}
+}
+
+// drawMalformed: payloads the validator of the topic has to keep away from the handler.
+func (m *machine) drawMalformed(t *rapid.T) (string, []byte) {
+	base := buildTx(m.drawSpec(t, -1))
+	enc := base.tx.Bytes()
+	switch rapid.IntRange(0, 5).Draw(t, "malformedKind") {
+	case 0:
+		return "empty", []byte{}
+	case 1:
+		return "garbage", rapid.SliceOfN(rapid.Byte(), 1, 60).Draw(t, "garbage")
+	case 2:
+		return "truncated", enc[:rapid.IntRange(1, len(enc)-1).Draw(t, "cut")]
+	case 3:
+		return "trailing-bytes", append(append([]byte{}, enc...), rapid.SliceOfN(rapid.Byte(), 1, 4).Draw(t, "extra")...)
+	case 4:
+		tx := base.tx.Copy()
+		tx.SenderPublicKey = tx.SenderPublicKey[:31]
+		return "short-public-key", tx.Encode()
+	}
+	tx := base.tx.Copy()
+	tx.Signatures = nil
+	return "no-signature", tx.Encode()
+}
+
+// drawFaultSpec: a transaction for an Add whose Publish will fail, aimed at the situations in which Add has most to keep consistent:
+// replacement, first transaction of a sender, eviction at a full pool, eviction from a full sender list; else any new transaction.
+func (m *machine) drawFaultSpec(t *rapid.T) txSpec {
+	p := m.prev
+	pooled := m.pooled()
+	switch rapid.IntRange(0, 5).Draw(t, "faultTarget") {
+	case 0: // replacement with a sufficient fee
+		if len(pooled) > 0 {
+			x := m.pick(t, pooled, "faultReplace")
+			return txSpec{Sender: x.spec.Sender, Nonce: x.spec.Nonce, Fee: x.tx.Fee + m.cfg.Diff + rapid.SampledFrom([]uint64{0, 0, 2000}).Draw(t, "faultFeeExtra"),
+				PSize: x.spec.PSize, Variant: (x.spec.Variant + 1) % 3}
+		}
+	case 1: // first transaction of a sender
+		for sd := 0; sd < m.nS; sd++ {
+			if p.listOf[string(buildAddr(sd))] == nil {
+				sp := m.drawSpec(t, sd)
+				sp.Fee = rapid.SampledFrom([]uint64{1000, 3000, 9000, 27000}).Draw(t, "faultFee")
+				return sp
+			}
+		}
+	case 2: // higher fee priority than anything pooled (evicts when the pool is full)
+		sp := m.drawSpec(t, -1)
+		sp.Fee, sp.PSize = 27000+uint64(rapid.IntRange(0, 3).Draw(t, "faultFeeStep"))*1000, 0
+		return sp
+	case 3: // lower nonce into a full sender list (the list evicts its highest nonce)
+		for sd := 0; sd < m.nS; sd++ {
+			l := p.listOf[string(buildAddr(sd))]
+			if l == nil || len(l.Transactions) < m.cfg.PerAcc {
+				continue
+			}
+			lo := uint64(1 << 62)
+			for n := range l.Transactions {
+				if n < lo {
+					lo = n
+				}
+			}
+			if lo > 0 {
+				sp := m.drawSpec(t, sd)
+				sp.Nonce = lo - 1
+				return sp
+			}
+		}
+	}
+	return m.drawSpec(t, -1)
+}
+
+// drawSubs: 0-3 event subscribers for a history.
+func drawSubs(t *rapid.T, counts []int, delays []time.Duration) []subKind {
+	n := rapid.SampledFrom(counts).Draw(t, "subscribers")
+	var out []subKind
+	for i := 0; i < n; i++ {
+		k := subKind{
+			Topic: rapid.SampledFrom([]string{"new", "new", "new", "both", "announcement"}).Draw(t, "subTopic"),
+			CB:    rapid.SampledFrom([]string{"get", "drain", "getall", "getprocessable", "remove", "get", "drain", "getall", "mixed", "drain"}).Draw(t, "subCallback"),
+		}
+		if k.CB != "drain" {
+			k.Delay = rapid.SampledFrom(delays).Draw(t, "subDelay")
+		}
+		out = append(out, k)
+	}
+	return out
+}
+
+var (
+	smallSubCounts = []int{0, 0, 0, 0, 0, 0, 1, 1, 2, 3}
+	smallSubDelays = []time.Duration{0, 0, 0, 0, 0, 0, 0, 0, 0, 0, 100 * time.Microsecond, 300 * time.Microsecond}
+)
 
 // TestPoolStateMachine: the main search.
 func TestPoolStateMachine(t *testing.T) {
@@ -916,7 +1476,9 @@ func TestPoolStateMachine(t *testing.T) {
 		c := drawCfg(t)
 		nS := rapid.IntRange(3, 4).Draw(t, "senders")
 		m := newMachine(t, c, nS, avoid)
+		m.subscribe(drawSubs(t, smallSubCounts, smallSubDelays))
 		t.Repeat(m.actions())
+		m.t = t
 		m.register("history")
 	})
 }
